@@ -30,6 +30,9 @@ EXHAUSTIVE_NOTE = "all completion orders of the parked writes/flushes/drains for
 SHARDED = True
 
 
+QUICK_SHARDS = 4
+
+
 class GatedFile:
     """A text file object whose write/flush block until the explorer releases
     them (they run in the real thread pool behind aiofiles)."""
